@@ -18,6 +18,8 @@ pub struct Cfg {
     pub responders: usize,
     /// (start offset after T_SEARCH, hash index, announce)
     pub searches: Vec<(u64, u8, bool)>,
+    /// honest responders also list their own id (and a neighbour's id) at addresses that never speak
+    pub dup_ids: bool,
     pub rng_seed: u64,
 }
 
@@ -61,6 +63,10 @@ pub fn build(cfg: &Cfg) -> (Scenario, Vec<Box<dyn Peer>>) {
     for i in 0..cfg.responders {
         let mut r = Responder::new(r_addr(i), r_id(i), universe.clone());
         r.values = vec![format!("172.30.0.{}:{}", i + 1, 3000 + i).parse().unwrap()];
+        if cfg.dup_ids && i < 2 {
+            let mute: SocketAddr = format!("10.0.33.{}:6881", i + 1).parse().unwrap();
+            r.node_list = crate::sim::peers::NodeList::ClosestPlus(vec![(r_id(i), mute), (r_id((i + 1) % cfg.responders), mute)]);
+        }
         peers.push(Box::new(r));
     }
     sc.nodes.push(NodeSpec { addr: s_addr(), id: Some(InfoHash::from(s_id())), read_only: true, announce_port: None, contacts: (0..cfg.responders).map(r_addr).collect(), routers: vec![], start_ms: 0 });
@@ -282,11 +288,12 @@ fn fates() -> Vec<Option<Fate>> {
 }
 
 fn cfg_json(c: &Cfg) -> Value {
-    json!({"responders":c.responders,"rng_seed":c.rng_seed,"searches":c.searches.iter().map(|(o,h,a)| json!([o,h,a])).collect::<Vec<_>>()})
+    json!({"responders":c.responders,"dup_ids":c.dup_ids,"rng_seed":c.rng_seed,"searches":c.searches.iter().map(|(o,h,a)| json!([o,h,a])).collect::<Vec<_>>()})
 }
 fn cfg_parse(v: &Value) -> Cfg {
     Cfg {
         responders: v["responders"].as_u64().unwrap_or(3) as usize,
+        dup_ids: v["dup_ids"].as_bool().unwrap_or(false),
         rng_seed: v["rng_seed"].as_u64().unwrap_or(1),
         searches: v["searches"].as_array().map(|a| a.iter().map(|s| (s[0].as_u64().unwrap_or(0), s[1].as_u64().unwrap_or(0) as u8, s[2].as_bool().unwrap_or(false))).collect()).unwrap_or_default(),
     }
@@ -329,10 +336,11 @@ pub fn run(tier: Tier) -> Report {
     let mut rep = Report::new("C03", "fault_enumeration", tier);
     let seed = 1 + seed();
     let cfgs: Vec<(Cfg, usize)> = vec![
-        (Cfg { responders: 3, searches: vec![(0, 0, true)], rng_seed: seed }, tier.pick(1, 2)),
-        (Cfg { responders: 3, searches: vec![(0, 0, true), (0, 1, false)], rng_seed: seed }, tier.pick(1, 2)),
-        (Cfg { responders: 4, searches: vec![(0, 0, false), (700, 1, true)], rng_seed: seed }, 1),
-        (Cfg { responders: 5, searches: vec![(0, 1, true), (20, 0, true)], rng_seed: seed }, 1),
+        (Cfg { responders: 3, searches: vec![(0, 0, true)], dup_ids: false, rng_seed: seed }, tier.pick(1, 2)),
+        (Cfg { responders: 3, searches: vec![(0, 0, true), (0, 1, false)], dup_ids: false, rng_seed: seed }, tier.pick(1, 2)),
+        (Cfg { responders: 4, searches: vec![(0, 0, false), (700, 1, true)], dup_ids: false, rng_seed: seed }, 1),
+        (Cfg { responders: 5, searches: vec![(0, 1, true), (20, 0, true)], dup_ids: false, rng_seed: seed }, 1),
+        (Cfg { responders: 3, searches: vec![(0, 0, true), (10, 1, true)], dup_ids: true, rng_seed: seed }, 1),
     ];
     let mut runs = 0u64;
     let mut levels = vec![];
